@@ -113,6 +113,25 @@ func RunC03(r *sim.Run) {
 
 	nReq := 0
 	held := map[string]bool{}
+	// what the stubs would answer to a probe, over time (ground truth of health)
+	type hev struct {
+		at time.Duration
+		ok bool
+	}
+	healthHist := map[string][]hev{}
+	noteHealth := func() {
+		for _, e := range eps {
+			st := w.StubFor(e)
+			// refused dials do not count: probes keep succeeding over a connection
+			// that is already established
+			ok := st.Health == ""
+			h := healthHist[e]
+			if len(h) == 0 || h[len(h)-1].ok != ok {
+				healthHist[e] = append(h, hev{w.Now(), ok})
+			}
+		}
+	}
+	noteHealth()
 	nSteps := t.Range(15, 70)
 	specChanges, healthChanges := 0, 0
 	for step := 0; step < nSteps; step++ {
@@ -215,6 +234,7 @@ func RunC03(r *sim.Run) {
 			s := cands[t.Draw(len(cands))]
 			st := w.StubFor(s.ep)
 			st.Health, st.DialMode = "hang", ""
+			noteHealth()
 			healthChanges++
 			r.Fault("health_flap")
 			inFlight := func() bool {
@@ -264,6 +284,7 @@ func RunC03(r *sim.Run) {
 				st.Health = ""
 			}
 		}
+		noteHealth()
 		w.Boundary()
 		if len(w.panics) > 0 {
 			break
@@ -403,6 +424,32 @@ func RunC03(r *sim.Run) {
 			if lastProbe != nil && lastProbe.Outcome != "200" {
 				r.Violate("forwarded_after_failed_probe", lastProbe.Outcome, "request %s was forwarded to %s at %v, but the latest health probe of that endpoint that got a verdict (started %v, ended %v) ended with %q and none that started later has succeeded", o.ID, o.Endpoint, o.At, lastProbe.At, lastProbe.DoneAt, lastProbe.Outcome)
 				return
+			}
+			// an endpoint that has been in the server list and enabled for three probe
+			// periods while every probe of it would have failed cannot be healthy in
+			// any gateway that probes it: interval 5 s + time-out 5 s, with slack
+			r.Checked("not_forwarded_to_long_failing_endpoint")
+			const longFailing = 16 * time.Second
+			if h := healthHist[o.Endpoint]; len(h) > 0 {
+				i := len(h) - 1
+				for i >= 0 && h[i].at > o.At {
+					i--
+				}
+				if i >= 0 && !h[i].ok {
+					failingFor := o.At - h[i].at
+					enabledSince := o.At
+					for b := o.Boundary; b >= 0; b-- {
+						cs := snapAt(b).Clusters["alpha"]
+						if cs == nil || cs.Obj == nil || !enabledSet(cs.Obj)[o.Endpoint] {
+							break
+						}
+						enabledSince = snapAt(b).Now
+					}
+					if failingFor > longFailing && o.At-enabledSince > longFailing {
+						r.Violate("forwarded_to_long_failing_endpoint", "c03", "request %s was forwarded to %s at %v; that endpoint has been enabled and in the server list for %v and every health probe of it would have failed for %v (probe interval 5 s, time-out 5 s)", o.ID, o.Endpoint, o.At, (o.At - enabledSince).Round(time.Millisecond), failingFor.Round(time.Millisecond))
+						return
+					}
+				}
 			}
 			r.Checked("forwarded_to_eligible_endpoint")
 			verb := verbOf(q)
